@@ -39,8 +39,8 @@ theorem Level_agrees (a : Knut.Account) : account.Account.Level (accountGo a) = 
 theorem Name_agrees (a : Knut.Account) : account.Account.Name (accountGo a) = a.name := rfl
 theorem Segments_agrees (a : Knut.Account) : account.Account.Segments (accountGo a) = a.segments := rfl
 theorem Type_agrees (a : Knut.Account) (t : AccountType) (h : a.type? = some t) :
-    account.Account.Type (accountGo a) = typeGo t := by
-  simp [account.Account.Type, accountGo, h]
+    account.Account.Type_ (accountGo a) = typeGo t := by
+  simp [account.Account.Type_, accountGo, h]
 
 theorem typeGo_ord (t : AccountType) : typeGo t = (t.ord : Int) := by cases t <;> rfl
 
